@@ -50,6 +50,18 @@ func (m *Machine) afterLockTransition(reason string) {
 	m.N["wipe-checked"]++
 }
 
+// checkLockedMemory runs after every operation: in every reached state a
+// manager that reports itself locked (or is watching-only) holds no clear-text
+// key material, whichever operation brought it there - not only Lock and a
+// failed Unlock, also e.g. a passphrase change made while locked.
+func (m *Machine) checkLockedMemory(op string) {
+	if !m.CheckWipe || !(m.Mgr.IsLocked() || m.WatchOnly) {
+		return
+	}
+	m.afterLockTransition("operation " + op + " (manager is locked)")
+	m.N["locked-state-memory-checked"]++
+}
+
 // CountPopulated counts, while unlocked, how many clear-text buffers are
 // populated (guards the wiping check against vacuity).
 func (m *Machine) CountPopulated() int {
